@@ -263,13 +263,43 @@ class ShimZ:
 
 
 # ------------------------------------------------------------------------------------------------------------------
-class I:
-    """symbolic integer (z3 Int); indexable through bounded enumeration (`__index__` decides value by value)"""
-    __slots__ = ("v", "lo", "hi")
+TOKENS = []          # symbolic values that were formatted into text: token k stands for TOKENS[k]
+
+
+def token(k, width):
+    body = str(k)
+    if width and width >= len(body) + 2:
+        return "\u00a7" + body.rjust(width - 2, "0") + "\u00a7"
+    return "\u00a7" + body + "\u00a7"
+
+
+class I(int):
+    """symbolic integer (z3 Int).  Subclasses int so that isinstance(x, int) checks in the code under test succeed.
+    Indexable through bounded enumeration (`__index__` decides value by value); formatting into text yields a token
+    (a placeholder of the requested width) that the contract's own parser maps back to the symbolic value."""
+
+    def __new__(cls, v, lo=None, hi=None):
+        o = int.__new__(cls, 0)
+        o.v = v if z3.is_expr(v) else z3.IntVal(int(v))
+        o.lo, o.hi = lo, hi
+        return o
 
     def __init__(self, v, lo=None, hi=None):
-        self.v = v if z3.is_expr(v) else z3.IntVal(int(v))
-        self.lo, self.hi = lo, hi
+        pass
+
+    def __format__(self, spec):
+        s = z3.simplify(self.v)
+        if z3.is_int_value(s):
+            return format(s.as_long(), spec)
+        width = 0
+        digits = "".join(ch for ch in spec if ch.isdigit())
+        if digits:
+            width = int(digits)
+        TOKENS.append(self)
+        return token(len(TOKENS) - 1, width)
+
+    def __str__(self):
+        return self.__format__("d")
 
     @staticmethod
     def lift(o):
